@@ -38,7 +38,8 @@ BOUNDS = {
              'level-1 terms (leaf, leaf.T, leaf.I), all sums/differences of two leaves, seeded triples, blocks of '
              'arity 1-3 over list/tuple/dict/nested containers, block@block, rule patterns at every position of '
              'chains of length <= 5 with inert neighbours, under .T, re-reduced, inside sums and blocks; '
-             'scalar multiples. Anything larger is outside the claim.',
+             'scalar multiples; 60 random well-typed trees of nesting depth <= 3 per family (compositions, sums, blocks, transposes, '
+             'inverses, scalar multiples, re-reduction in any nesting). Anything larger is outside the claim.',
     'thorough': 'same grammar, all triples, depth 3, chains <= 6, more block combinations (capped by wall time).',
 }
 STUBS = ['lineax.linear_solve -> contract stub A.mv(z) == b (functional); lazy inverses only of operators whose '
@@ -197,10 +198,86 @@ def gen_programs(fam, tier, seed):
     return out
 
 
+def gen_typed(fam, n, seed, maxdepth=3):
+    """Random well-typed expression trees of nesting depth <= maxdepth (compositions, sums, blocks, transposes, inverses,
+    scalar multiples in any nesting), generated constructively from the leaves' declared structures."""
+    rnd = random.Random(f'typed-{seed}-{fam}')
+    sig = {}
+    for name in FAM[fam]:
+        try:
+            op = build_concrete(fam, L(name))
+            sig[name] = (str(op.in_structure()), str(op.out_structure()))
+        except Exception:  # noqa: BLE001
+            pass
+    names = sorted(sig)
+    structs = sorted({s for v in sig.values() for s in v})
+    counter = [0]
+
+    def leaf(i, o):
+        cands = [n_ for n_ in names if sig[n_] == (i, o)]
+        tcands = [n_ for n_ in names if sig[n_] == (o, i)]
+        choices = [('leaf', c) for c in cands] + [('T', c) for c in tcands]
+        if not choices:
+            return None
+        k, c = rnd.choice(choices)
+        counter[0] += 1
+        e = ('leaf', c, counter[0] % 3)
+        return e if k == 'leaf' else ('T', e)
+
+    def gen(i, o, d):
+        if d == 0 or rnd.random() < 0.25:
+            return leaf(i, o)
+        kind = rnd.choice(['comp', 'comp', 'sum', 'kmul', 'neg', 'T', 'red', 'inv'])
+        if kind == 'comp':
+            m = rnd.choice(structs)
+            a, b = gen(m, o, d - 1), gen(i, m, d - 1)
+            return ('@', a, b) if a and b else leaf(i, o)
+        if kind == 'sum':
+            a, b = gen(i, o, d - 1), gen(i, o, d - 1)
+            return (rnd.choice('+-'), a, b) if a and b else leaf(i, o)
+        if kind == 'T':
+            a = gen(o, i, d - 1)
+            return ('T', a) if a else leaf(i, o)
+        if kind == 'inv' and i == o:
+            cands = [n_ for n_ in INV_OK[fam] if n_ in sig and sig[n_] == (i, o)]
+            if cands:
+                return ('I', L(rnd.choice(cands)))
+            return leaf(i, o)
+        a = gen(i, o, d - 1)
+        if not a:
+            return None
+        return {'kmul': ('kmul', a, 0), 'neg': ('neg', a), 'red': ('red', a)}.get(kind, a)
+
+    out = []
+    tries = 0
+    while len(out) < n and tries < 40 * n:
+        tries += 1
+        mode = rnd.choice(['plain', 'plain', 'diag', 'row', 'col'])
+        i, o = rnd.choice(structs), rnd.choice(structs)
+        if mode == 'plain':
+            e = gen(i, o, maxdepth)
+        else:
+            ar = rnd.choice([1, 2, 3])
+            cont = rnd.choice(['list', 'tuple', 'dict', 'nest'])
+            if mode == 'diag':
+                bl = [gen(rnd.choice(structs), rnd.choice(structs), maxdepth - 1) for _ in range(ar)]
+            elif mode == 'row':
+                bl = [gen(rnd.choice(structs), o, maxdepth - 1) for _ in range(ar)]
+            else:
+                bl = [gen(i, rnd.choice(structs), maxdepth - 1) for _ in range(ar)]
+            e = (mode, cont, tuple(bl)) if all(bl) else None
+            if e and rnd.random() < 0.5:
+                e = ('red', e) if rnd.random() < 0.5 else ('T', e)
+        if e and e[0] != 'leaf' and e not in out:
+            out.append(e)
+    return out
+
+
 def cases(tier, seed):
     out = []
     for fam in ('vec', 'mat', 'stokes', 'tree'):
         out += [(fam, e) for e in gen_programs(fam, tier, seed)]
+        out += [(fam, e) for e in gen_typed(fam, 60 if tier == 'quick' else 600, seed)]
     return out
 
 
